@@ -251,22 +251,25 @@ func RunOne(p *Prop, seed int64, idx int, tier string, rec map[string][]uint32, 
 
 // ReplayFile is the on-disk form of a violation (Appendix D of DESIGN.md).
 type ReplayFile struct {
-	Property  string              `json:"property"`
-	Seed      int64               `json:"seed"`
-	Run       int                 `json:"run"`
-	Tier      string              `json:"tier"`
-	Build     string              `json:"build"`
-	Alloc     string              `json:"alloc_override,omitempty"`
-	Tape      TapeRec             `json:"tape"` // nil: regenerate from (seed, run)
-	Violation *Violation          `json:"violation"`
-	Trace     []string            `json:"trace"`
-	EventHash string              `json:"event_hash"`
-	Minimised bool                `json:"minimised"`
-	Shrink    int                 `json:"shrink_steps"`
-	TapeLen   int                 `json:"tape_len"`
-	OrigLen   int                 `json:"tape_len_before_shrinking"`
-	Stderr    []string            `json:"stderr_signature,omitempty"`
-	Note      string              `json:"note,omitempty"`
+	Property  string     `json:"property"`
+	Seed      int64      `json:"seed"`
+	Run       int        `json:"run"`
+	Tier      string     `json:"tier"`
+	Build     string     `json:"build"`
+	Alloc     string     `json:"alloc_override,omitempty"`
+	Tape      TapeRec    `json:"tape"` // nil: regenerate from (seed, run)
+	Violation *Violation `json:"violation"`
+	Trace     []string   `json:"trace"`
+	EventHash string     `json:"event_hash"`
+	Minimised bool       `json:"minimised"`
+	Shrink    int        `json:"shrink_steps"`
+	TapeLen   int        `json:"tape_len"`
+	OrigLen   int        `json:"tape_len_before_shrinking"`
+	Stderr    []string   `json:"stderr_signature,omitempty"`
+	Note      string     `json:"note,omitempty"`
+	// crash-class violations that need the preceding runs of the same worker process
+	ShareOffset int `json:"share_offset,omitempty"`
+	ShareStride int `json:"share_stride,omitempty"`
 }
 
 // tapeLess orders tapes by (total length, sum of values): shrinking only ever accepts a
